@@ -23,8 +23,8 @@ ASSUMPTIONS = [
     'array pressure profiles: the hydrostatic clauses are asserted when the levels the code derives from the array are strictly decreasing (the statement quantifies over decreasing levels)',
     'rtol 1e-10 on altitude/gravity/scale height against the pure-python reference',
 ]
-RULE = RULE + ' ' + 'Also: levels 1-8 ulp apart, array profiles read from text files (own column, header rows, unit, top-first with reverse=True), temperatures as an integer array; cases stratified by part.'
-REQUIRED = {'rejected-point-then-valid': 0.05, 'temperatures:integer-array': 0.08, 'array:from-file': 0.008, 'array:from-file,top-first': 0.008, 'levels:ulp-spaced': 0.025, 'part:function': 0.2, 'part:model-simple': 0.2, 'part:model-array': 0.08, 'layers:1': 0.01}
+RULE = RULE + ' ' + 'Also: levels 1-8 ulp apart, array profiles read from text files (own column, header rows, unit, top-first with reverse=True), temperatures as an integer array; cases stratified by part. Round 9: the planet-change history moves mass and radius together, the mass alone or the radius alone (a third each).'
+REQUIRED = {'planet-changed:mass-only': 0.08, 'rejected-point-then-valid': 0.05, 'temperatures:integer-array': 0.08, 'array:from-file': 0.008, 'array:from-file,top-first': 0.008, 'levels:ulp-spaced': 0.025, 'part:function': 0.2, 'part:model-simple': 0.2, 'part:model-array': 0.08, 'layers:1': 0.01}
 
 MJUP = 1.2668653e17 / 6.6743e-11
 RJUP = 71492000.0
@@ -340,8 +340,17 @@ def planet_changed(out, c, W, m, w, nl):
     if nl < 2:
         return
     out.cls('planet-changed')
-    m['planet_mass'] = m['planet_mass'] * fm
-    m['planet_radius'] = m['planet_radius'] * fr
+    # both moved, or only one of them (a retrieval fitting the mass alone leaves every other input of the structure as it was)
+    only = ('both', 'mass-only', 'radius-only')[sum(c.get('file_layout', [0, 0])) % 3]
+    out.cls('planet-changed:' + only)
+    if only == 'mass-only':
+        fr = 1.0
+    elif only == 'radius-only':
+        fm = 1.0
+    if fm != 1.0:
+        m['planet_mass'] = m['planet_mass'] * fm
+    if fr != 1.0:
+        m['planet_radius'] = m['planet_radius'] * fr
     with np.errstate(all='ignore'):
         cut(out, 'model@planet-changed', m.model)
     Pl = np.asarray(m.pressure.pressure_profile_levels, dtype=float)
